@@ -161,6 +161,11 @@ mod child {
             &self.0
         }
     }
+    impl std::fmt::Display for RawKey {
+        fn fmt(&self, f: &mut std::fmt::Formatter<'_>) -> std::fmt::Result {
+            f.write_str(&self.0)
+        }
+    }
 
     /// A hostile (or plain) input string with its canonical class.
     #[derive(Clone)]
@@ -339,12 +344,15 @@ mod child {
         c.emit(&hello);
         phase_disk_raw(&mut c);
         phase_disk_typed(&mut c);
+        phase_disk_maintenance(&mut c);
         phase_protocol_cache(&mut c);
         let port = start_mock();
         phase_query(&mut c, port);
         phase_cdn(&mut c, port);
         phase_storage(&mut c);
         phase_storage_sanity(&mut c);
+        phase_hardlink(&mut c);
+        phase_store_maintenance(&mut c);
         phase_injectivity(&mut c);
         let done = json!({"t":"done","calls":c.n});
         c.emit(&done);
@@ -514,7 +522,7 @@ mod child {
         }
     }
 
-    fn typed_site<K: CacheKey + 'static>(c: &mut Child, site: &str, control: K, strings: &[Hs], mk: impl Fn(&str) -> K) {
+    fn typed_site<K: CacheKey + std::fmt::Display + 'static>(c: &mut Child, site: &str, control: K, strings: &[Hs], mk: impl Fn(&str) -> K) {
         for (vi, (vname, sub)) in [("flat", false), ("subdirs", true)].iter().enumerate() {
             let tname = site.split('.').next().unwrap_or(site);
             let root = c.root(&format!("dc_{}_{}_{}", tname, site.split('.').nth(1).unwrap_or("f"), vname));
@@ -526,8 +534,20 @@ mod child {
                 if c.quick && i % 2 != vi {
                     continue;
                 }
-                let key = mk(&h.s);
                 let meta = Meta::new("DiskCache", &variant, &root, &h.s);
+                // building the key, its cache-key string, its display form and its lookup hashes must not
+                // panic for any field value (no file is involved: any file syscall in this window is flagged)
+                let mut built: Option<K> = None;
+                c.window(&meta.api("TypedKey::new+as_cache_key+Display+fast_hash"), || {
+                    let k = mk(&h.s);
+                    let shown = k.to_string();
+                    let fh = CacheKey::fast_hash(&k);
+                    let jh = k.hash_key();
+                    let out = format!("ck_len={} display_len={} h32={:08x} j32={:08x}", k.as_cache_key().len(), shown.len(), fh.hash32, jh.hash32);
+                    built = Some(k);
+                    O::Ok(out)
+                });
+                let Some(key) = built else { continue };
                 disk_ops(c, &cache, &key, &meta, &["get", "put", "get", "remove"]);
             }
         }
@@ -603,6 +623,113 @@ mod child {
                 let pc2 = pc.clone();
                 c.window(&meta.api("ProtocolCache::warm_cache"), move || O::from(bo(pc2.warm_cache(keys)), |n| n.to_string()));
             }
+        }
+        // maintenance calls over a directory that now holds every accepted odd name: they walk / wipe the
+        // directory and must stay inside it
+        let mut m = Meta::new("ProtocolCache::stats", "disk/after-hostile-stores", &root, "maintenance");
+        m.class = "maintenance".into();
+        c.window(&m, || O::from(pc.stats(), |s| format!("entries={}", s.entries)));
+        c.window(&m.api("ProtocolCache::hit_rate"), || O::from(pc.hit_rate(), |r| format!("{r:.3}")));
+        c.window(&m.api("ProtocolCache::len"), || O::from(pc.len(), |n| n.to_string()));
+        c.window(&m.api("ProtocolCache::is_empty"), || O::from(pc.is_empty(), |b| b.to_string()));
+        c.window(&m.api("ProtocolCache::cleanup_expired"), || O::from(pc.cleanup_expired(), |n| n.to_string()));
+        // a second instance on the same directory (empty index): len() scans the directory
+        let pc_b = proto_cache(&root);
+        c.window(&m.api("ProtocolCache::len"), || O::from(pc_b.len(), |n| format!("fresh-instance:{n}")));
+        c.window(&m.api("ProtocolCache::clear"), || O::from(pc_b.clear(), |()| "cleared".into()));
+        c.window(&m.api("ProtocolCache::len"), || O::from(pc_b.len(), |n| format!("after-clear:{n}")));
+        c.window(&m.api("ProtocolCache::clear"), || O::from(pc.clear(), |()| "cleared".into()));
+    }
+
+    // ---- DiskCache maintenance: size / stats / clear / background cleanup / large values -------
+
+    fn phase_disk_maintenance(c: &mut Child) {
+        let mut rng = c.rng(9);
+        for (vname, sub) in [("flat/RawKey", false), ("subdirs/RawKey", true)] {
+            let root = c.root(if sub { "dcm_sub" } else { "dcm_flat" });
+            let cache: DiskCache<RawKey> = disk_cache(&root, sub);
+            control_disk(c, &cache, &RawKey("control-key".into()), vname, &root);
+            // fill the directory through the cache itself with every odd name it accepts
+            let set = hostile_set(c, &mut rng, 10, 300);
+            let mut accepted: Vec<RawKey> = Vec::new();
+            for h in &set {
+                let key = RawKey(h.s.clone());
+                let mut meta = Meta::new("DiskCache::put", vname, &root, &h.s);
+                meta.ck = Some(h.s.clone());
+                let (outcome, _) = c.window(&meta, || O::from(bo(cache.put(key.clone(), value_for(&h.s))), |()| "stored".into()));
+                if outcome == "ok" {
+                    accepted.push(key);
+                }
+            }
+            let mut m = Meta::new("DiskCache::size", &format!("{vname}/after-hostile-puts"), &root, "maintenance");
+            m.class = "maintenance".into();
+            m.strings = vec![format!("accepted_keys={}", accepted.len())];
+            c.window(&m, || O::from(bo(cache.size()), |n| n.to_string()));
+            c.window(&m.api("DiskCache::stats"), || O::from(bo(cache.stats()), |s| format!("entries={}", s.entry_count)));
+            // a second instance over the same directory has an empty index: size() walks the directory,
+            // contains/get/remove go to the files directly
+            let fresh: DiskCache<RawKey> = disk_cache(&root, sub);
+            c.window(&m, || O::from(bo(fresh.size()), |n| format!("fresh-instance:{n}")));
+            for key in accepted.iter().take(c.pick(12, 200)) {
+                let mut meta = Meta::new("DiskCache", &format!("{vname}/fresh-instance"), &root, &key.0);
+                meta.ck = Some(key.0.clone());
+                c.window(&meta.api("DiskCache::contains"), || O::from(bo(fresh.contains(key)), |b| b.to_string()));
+                c.window(&meta.api("DiskCache::get"), || O::from(bo(fresh.get(key)), |v| if v.is_some() { "some".into() } else { "none".into() }));
+            }
+            if let Some(key) = accepted.first() {
+                let mut meta = Meta::new("DiskCache::remove", &format!("{vname}/fresh-instance"), &root, &key.0);
+                meta.ck = Some(key.0.clone());
+                c.window(&meta, || O::from(bo(fresh.remove(key)), |b| b.to_string()));
+            }
+            c.window(&m.api("DiskCache::clear"), || O::from(bo(fresh.clear()), |()| "cleared".into()));
+            c.window(&m, || O::from(bo(fresh.size()), |n| format!("after-clear:{n}")));
+            // the first instance still indexes the (now deleted) files
+            c.window(&m.api("DiskCache::clear"), || O::from(bo(cache.clear()), |()| "cleared".into()));
+            c.window(&m, || O::from(bo(cache.size()), |n| format!("after-clear:{n}")));
+        }
+        // a value of 16 MiB takes the large-file read path of a fresh instance
+        {
+            let root = c.root("dcm_large");
+            let cache: DiskCache<RawKey> = disk_cache(&root, false);
+            let key = RawKey("nested/large.bin".into());
+            let big = Bytes::from(vec![0x5au8; 16 * 1024 * 1024]);
+            let mut m = Meta::new("DiskCache::put", "flat/RawKey/16MiB", &root, &key.0);
+            m.ck = Some(key.0.clone());
+            c.window(&m, || O::from(bo(cache.put(key.clone(), big.clone())), |()| "stored".into()));
+            let fresh: DiskCache<RawKey> = disk_cache(&root, false);
+            c.window(&m.api("DiskCache::get"), || O::from(bo(fresh.get(&key)), |v| format!("len={}", v.map_or(0, |b| b.len()))));
+            c.window(&m.api("DiskCache::remove"), || O::from(bo(fresh.remove(&key)), |b| b.to_string()));
+        }
+        // background cleanup task: expired entries are deleted by the task while the runtime is driven
+        {
+            let root = c.root("dcm_bg");
+            let mut cfg = DiskCacheConfig::new(&root).with_max_files(1_000_000).with_subdirectories(true, 2);
+            cfg.cleanup_interval = Duration::from_millis(25);
+            cfg.sync_interval = Duration::from_secs(3600);
+            // constructed, and the tasks' immediate first tick driven, OUTSIDE any window: the sync task runs
+            // the external `sync` program (process start-up is not path construction from strings)
+            let cache: DiskCache<RawKey> = bo(async { DiskCache::new_with_background_tasks(cfg) }).expect("DiskCache::new_with_background_tasks");
+            bo(async { tokio::time::sleep(Duration::from_millis(120)).await });
+            let set = hostile_set(c, &mut rng, 0, 40);
+            let mut m = Meta::new("DiskCache::background_cleanup", "subdirs/RawKey/ttl-1ms", &root, "maintenance");
+            m.class = "maintenance".into();
+            let keys: Vec<RawKey> = set.iter().take(c.pick(40, 200)).map(|h| RawKey(h.s.clone())).collect();
+            c.window(&m, || {
+                let stored = bo(async {
+                    let mut n = 0;
+                    for k in &keys {
+                        if cache.put_with_ttl(k.clone(), Bytes::from_static(b"VH-BG"), Duration::from_millis(1)).await.is_ok() {
+                            n += 1;
+                        }
+                    }
+                    // several cleanup ticks
+                    tokio::time::sleep(Duration::from_millis(200)).await;
+                    n
+                });
+                let left = bo(cache.size()).unwrap_or(usize::MAX);
+                O::Ok(format!("stored={stored} left_after_cleanup={left}"))
+            });
+            drop(cache);
         }
     }
 
@@ -790,6 +917,73 @@ mod child {
                 c.window(&m.api("CdnClient::get_index_size"), || O::from(bo(cdn.get_index_size(&good, ak)), |d| format!("{d:?}")));
             }
         }
+        // download_with_progress: the fourth way from (endpoint, content type, key) to a URL
+        for len in (0..=32usize).chain([33, 64, 255]) {
+            let key = rng.bytes(len);
+            let ct = cts[len % 3];
+            let mut m = Meta::new("CdnClient::download_with_progress", v, &root, &format!("keylen:{len}"));
+            m.class = format!("key-len-{}", if len < 2 { len.to_string() } else { "ge2".into() });
+            m.nt = len < 2;
+            c.window(&m, || {
+                let mut calls = 0u64;
+                O::from(bo(cdn.download_with_progress(&good, ct, &key, |_, _| calls += 1)), |d| format!("bytes={}", d.len()))
+            });
+        }
+        for (i, h) in set.iter().enumerate().filter(|(i, _)| i % 3 == 1) {
+            let ep = endpoint(&host, &h.s);
+            let key = rng.bytes(16);
+            let mut m = Meta::new("CdnClient::download_with_progress", v, &root, &h.s);
+            m.variant = format!("{v}/endpoint.path");
+            c.window(&m, || O::from(bo(cdn.download_with_progress(&ep, cts[i % 3], &key, |_, _| {})), |d| format!("bytes={}", d.len())));
+        }
+        // endpoints as they arrive from the network: a row of the `cdns` BPSV document (Hosts / Path /
+        // ProductPath are remote strings) turned into an endpoint, which is then used for a download
+        {
+            use cascette_formats::bpsv::{BpsvRow, BpsvSchema};
+            let schema = BpsvSchema::parse("Name!STRING:0|Path!STRING:0|Hosts!STRING:0|Servers!STRING:0|ConfigPath!STRING:0|ProductPath!STRING:0").expect("cdns schema");
+            let mut rows: Vec<(String, String, String)> = Vec::new(); // (what, path, hosts)
+            for h in &set {
+                rows.push(("Path".into(), h.s.clone(), format!("{host}?fallback=1&strict=0&maxhosts=3 other.invalid")));
+            }
+            for hs in [
+                String::new(), " ".into(), "?".into(), "?fallback=1".into(), format!("{host}?maxhosts=0"), format!("{host}?maxhosts=99999999999999999999"), format!("{host}?maxhosts=-1&strict=1"),
+                format!("{host}?fallback"), format!("{host}?=&&=1"), format!("{host}??fallback=1?strict=1"), "../..?fallback=1".into(), format!("{host}/../..?strict=1"), "é?é=é".into(),
+                format!("{}?maxhosts=2", "é".repeat(600)),
+            ] {
+                rows.push(("Hosts".into(), "tpr/wow".into(), hs));
+            }
+            for (i, (what, path, hosts)) in rows.iter().enumerate() {
+                let input = if what == "Path" { path.clone() } else { hosts.clone() };
+                let mut m = Meta::new("CdnClient::endpoint_from_bpsv_row", v, &root, &input);
+                m.variant = format!("{v}/cdns-row.{what}");
+                let mut ep: Option<CdnEndpoint> = None;
+                c.window(&m, || {
+                    let vals = vec!["us".to_string(), path.clone(), hosts.clone(), String::new(), "tpr/configs/data".to_string(), path.clone()];
+                    let row = match BpsvRow::parse(vals, &schema) {
+                        Ok(r) => r,
+                        Err(e) => return O::Err(format!("row refused by the BPSV layer: {e}")),
+                    };
+                    O::from(CdnClient::endpoint_from_bpsv_row(&row, &schema), |e| {
+                        let out = format!("host={:?} path={:?} fallback={} strict={} max_hosts={:?}", e.host, e.path, e.is_fallback, e.strict, e.max_hosts);
+                        ep = Some(e);
+                        out
+                    })
+                });
+                let Some(mut ep) = ep else { continue };
+                // (the mock speaks plain http)
+                ep.scheme = Some("http".to_string());
+                let key = rng.bytes(16);
+                let ct = cts[i % 3];
+                let mut m2 = m.api("CdnClient::download");
+                m2.variant = format!("{v}/endpoint-from-cdns-row.{what}");
+                c.window(&m2, || O::from(bo(cdn.download(&ep, ct, &key)), |d| format!("bytes={}", d.len())));
+                if i % 4 == 0 {
+                    let ak = hex::encode(&key);
+                    c.window(&m2.api("CdnClient::download_archive_index"), || O::from(bo(cdn.download_archive_index(&ep, &ak)), |d| format!("bytes={}", d.len())));
+                    c.window(&m2.api("CdnClient::get_file_size"), || O::from(bo(cdn.get_file_size(&ep, ct, &key)), |d| format!("{d:?}")));
+                }
+            }
+        }
         // hostile host strings (URL construction must not panic; errors are fine)
         let hosts: Vec<String> = vec![
             String::new(), "..".into(), "../x".into(), format!("{host}/../.."), format!("{host}/a/../../b"), "a b".into(), "[::1".into(), "127.0.0.1:99999".into(),
@@ -817,9 +1011,203 @@ mod child {
         m.class = "control".into();
         c.window(&m, || O::from(storage.open_installation("wow_retail"), |i| format!("opened strong={}", std::sync::Arc::strong_count(&i))));
         let set = hostile_set(c, &mut rng, 10, 1900);
+        let mut opened = 0usize;
         for h in &set {
             let meta = Meta::new("Storage::open_installation", "base_path", &root, &h.s);
-            c.window(&meta, || O::from(storage.open_installation(&h.s), |_| "opened".into()));
+            let (outcome, _) = c.window(&meta, || O::from(storage.open_installation(&h.s), |_| "opened".into()));
+            if outcome == "ok" {
+                opened += 1;
+                // the second open of the same name takes the "already open" branch
+                if opened % 8 == 1 {
+                    c.window(&meta, || O::from(storage.open_installation(&h.s), |i| format!("reopened strong={}", std::sync::Arc::strong_count(&i))));
+                }
+            }
+        }
+        // the directory layout the storage hands out, and the list of what it opened
+        for (name, p) in [
+            ("Storage::data_path", storage.data_path()),
+            ("Storage::indices_path", storage.indices_path()),
+            ("Storage::residency_path", storage.residency_path()),
+            ("Storage::ecache_path", storage.ecache_path()),
+            ("Storage::hardlink_path", storage.hardlink_path()),
+            ("Storage::build_info_path", storage.build_info_path()),
+        ] {
+            pure(c, name, storage.base_path(), "base_path", &p);
+        }
+        let mut m = Meta::new("Storage::list_installations", "base_path", &root, "maintenance");
+        m.class = "maintenance".into();
+        c.window(&m, || {
+            let names = storage.list_installations();
+            O::Ok(format!("listed={} opened={opened} config_base={}", names.len(), storage.config().base_path == root))
+        });
+        // a second Storage over the existing tree validates (and write-probes) the five sub-directories
+        c.window(&m.api("Storage::new"), || O::from(Storage::new(StorageConfig { base_path: root.clone(), ..StorageConfig::default() }), |s| format!("base={}", s.base_path() == &root)));
+    }
+
+    // ---- HardLinkContainer: trie paths from binary keys, directory maintenance ---------------
+
+    fn phase_hardlink(c: &mut Child) {
+        use cascette_client_storage::container::hardlink::{HardLinkContainer, format_content_key_path};
+        use cascette_client_storage::container::{AccessMode, Container};
+        let mut rng = c.rng(10);
+        // one root holds the link sources and the container directory (hard_link names both paths)
+        let root = c.root("hl");
+        let src_dir = root.join("src");
+        let hl_dir = root.join("hardlink");
+        std::fs::create_dir_all(&src_dir).expect("src dir");
+        let mut hl = HardLinkContainer::new(AccessMode::ReadWrite, hl_dir.clone());
+        let v = "binary-keys";
+        let mut m = Meta::new("HardLinkContainer::initialize", v, &root, "control");
+        m.control = true;
+        m.class = "control".into();
+        c.window(&m, || O::from(bo(hl.initialize()), |()| "initialized".into()));
+        c.window(&m.api("HardLinkContainer::test_support"), || O::from(hl.test_support(&src_dir, &hl_dir), |b| if b { "supported".to_string() } else { "unsupported".to_string() }));
+        let supported = hl.is_supported();
+        let mut keys: Vec<[u8; 16]> = vec![[0xff; 16], [0x2e; 16], [0x2f; 16], *b"../../../../../x", *b"/../../../../../", [0x5c; 16], *b"..\\..\\..\\..\\..\\x"];
+        keys.push({
+            let mut k = [0u8; 16];
+            k[15] = 1; // first nine bytes zero: directory 00/00
+            k
+        });
+        for _ in 0..c.pick(24, 600) {
+            keys.push(rng.array::<16>());
+        }
+        for (i, key) in keys.iter().enumerate() {
+            let ek: [u8; 9] = key[..9].try_into().expect("9 bytes");
+            let hexk = hex::encode(key);
+            let mut meta = Meta::new("HardLinkContainer", v, &root, &hexk);
+            meta.class = "binary-keys".into();
+            let src = src_dir.join(format!("obj{i}"));
+            std::fs::write(&src, format!("VH-HL {i}")).expect("source file");
+            let dst = format_content_key_path(&hl_dir, &ek);
+            pure(c, "format_content_key_path", &hl_dir, &hexk, &dst);
+            c.window(&meta.api("HardLinkContainer::query"), || O::from(bo(hl.query(key)), |b| b.to_string()));
+            c.window(&meta.api("HardLinkContainer::create_link"), || O::from(hl.create_link(key, &src, &dst), |()| "linked".into()));
+            c.window(&meta.api("HardLinkContainer::query"), || O::from(bo(hl.query(key)), |b| b.to_string()));
+            match i % 4 {
+                0 => {
+                    c.window(&meta.api("HardLinkContainer::remove"), || O::from(bo(hl.remove(key)), |()| "removed".into()));
+                }
+                1 => {
+                    c.window(&meta.api("HardLinkContainer::remove_file"), || O::from(hl.remove_file(key, &dst), |()| "removed".into()));
+                }
+                2 => {
+                    // not shared any more once the source is gone: delete_keys may remove it
+                    let _ = std::fs::remove_file(&src);
+                    let ks = [*key, keys[(i + 1) % keys.len()]];
+                    c.window(&meta.api("HardLinkContainer::delete_keys"), || O::from(hl.delete_keys(&ks), |n| n.to_string()));
+                }
+                _ => {}
+            }
+            let mut buf = [0u8; 8];
+            c.window(&meta.api("HardLinkContainer::read"), || O::from(bo(hl.read(key, 0, 8, &mut buf)), |n| n.to_string()));
+        }
+        // files the container did not create, with odd names, at every trie level
+        for rel in ["zz", "0g", "ab/zz", "ab/cd/not-a-leaf", "ab/cd/0123456789abcX", "ab/cd/ü", "x.idx", "shmem.tmp", "a b", "ab/cd/0123456789abcd.tmp"] {
+            let p = hl_dir.join(rel);
+            if let Some(d) = p.parent() {
+                let _ = std::fs::create_dir_all(d);
+            }
+            let _ = std::fs::write(&p, b"decoy");
+        }
+        let mut mm = Meta::new("HardLinkContainer::compact_directory", v, &root, "maintenance");
+        mm.class = "maintenance".into();
+        mm.strings = vec![format!("hard_links_supported={supported}")];
+        c.window(&mm, || O::from(hl.compact_directory(), |n| n.to_string()));
+        c.window(&mm.api("HardLinkContainer::clean_directory"), || O::from(hl.clean_directory(), |n| n.to_string()));
+        c.window(&mm.api("HardLinkContainer::compact_directory"), || O::from(hl.compact_directory(), |n| n.to_string()));
+        // read-only container over the same directory: every mutation is refused without touching anything
+        let ro = HardLinkContainer::new(AccessMode::ReadOnly, hl_dir.clone());
+        let key = keys[0];
+        let ek: [u8; 9] = key[..9].try_into().expect("9 bytes");
+        let dst = format_content_key_path(&hl_dir, &ek);
+        let mut mr = Meta::new("HardLinkContainer::remove_file", "binary-keys/read-only", &root, &hex::encode(key));
+        mr.class = "binary-keys".into();
+        c.window(&mr, || O::from(ro.remove_file(&key, &dst), |()| "removed".into()));
+        c.window(&mr.api("HardLinkContainer::delete_keys"), || O::from(ro.delete_keys(&[key]), |n| n.to_string()));
+    }
+
+    // ---- LruManager / IndexManager: the calls that list, load and delete files ---------------
+
+    fn phase_store_maintenance(c: &mut Child) {
+        use cascette_client_storage::index::IndexManager;
+        use cascette_client_storage::lru::LruManager;
+        use cascette_client_storage::lru::lru_file::{filename_to_generation, generation_to_filename};
+        let mut rng = c.rng(11);
+        let decoys: Vec<OsString> = vec![
+            "000000000000001.lru".into(), "0000000000000001.lrux".into(), "00000000000000zz.lru".into(), "..lru".into(), "üüüüüüüü.lru".into(), "data.001".into(),
+            "0000000000000063.lru.tmp".into(), "zz.idx".into(), "0g00000001.idx".into(), "00000000zz.idx".into(), "üüüüü.idx".into(), "漢漢漢x.idx".into(), "0漢漢漢.idx".into(), "漢漢漢漢漢漢.lru".into(), "0000000001.IDX.bak".into(), "a b.idx".into(),
+            OsString::from_vec(vec![0xff, 0xfe, b'.', b'l', b'r', b'u']), OsString::from_vec(vec![0xff, 0xfe, 0xfd, 0xfc, 0xfb, 0xfa, 0xf9, 0xf8, 0xf7, 0xf6, b'.', b'i', b'd', b'x']),
+        ];
+        // names as strings: the parse side of the generation file names
+        for name in ["", "0000000000000001.lru", "üüüüüüüü.lru", "ééééééééé.lr", "0000000000000001.LRU", "+000000000000001.lru", "00000000 0000001.lru", "𝔘𝔘𝔘𝔘.lru", "0000000000000001.lrü", "00000000000000ü.lru"] {
+            let root = c.parent.join("cwd");
+            let mut m = Meta::new("lru_file::filename_to_generation", "names", &root, name);
+            m.nt = true;
+            c.window(&m, || {
+                let g = filename_to_generation(name);
+                O::Ok(format!("{g:?} roundtrip={}", g.is_none_or(|g| generation_to_filename(g).eq_ignore_ascii_case(name))))
+            });
+        }
+        let rounds = c.pick(4, 40);
+        for r in 0..rounds {
+            let lroot = c.root(&format!("cs_lrum_{r}"));
+            for d in &decoys {
+                let _ = std::fs::write(lroot.join(d), b"decoy");
+            }
+            let mut lru = LruManager::new(16, lroot.clone());
+            for _ in 0..(1 + rng.usize_below(20)) {
+                let mut k = rng.array::<9>();
+                if rng.chance(1, 4) {
+                    k = *b"../../../";
+                }
+                let _ = lru.touch(&k);
+            }
+            let mut m = Meta::new("LruManager::shutdown", "binary-keys+decoy-files", &lroot, &format!("round={r}"));
+            m.class = "binary-keys".into();
+            // generations 1..: checkpoint, bump, shutdown leave several generation files behind
+            c.window(&m.api("LruManager::checkpoint_to_disk"), || O::from(bo(lru.checkpoint_to_disk()), |()| "saved".into()));
+            c.window(&m, || O::from(bo(lru.shutdown()), |()| "shut down".into()));
+            if r % 2 == 0 {
+                // a far-away generation (stale for every later manager)
+                let _ = std::fs::copy(lroot.join(generation_to_filename(lru.generation())), lroot.join(generation_to_filename(u64::MAX - r as u64)));
+            }
+            c.window(&m.api("LruManager::find_latest_lru_file"), || O::Ok(format!("{:?}", LruManager::find_latest_lru_file(&lroot).map(|(g, _)| g))));
+            let mut lru2 = LruManager::new(16, lroot.clone());
+            let g_live = lru.generation();
+            let g_none = rng.next_u64();
+            c.window(&m.api("LruManager::load_from_disk"), || O::from(bo(lru2.load_from_disk(g_live)), |()| "loaded".into()));
+            c.window(&m.api("LruManager::load_from_disk"), || O::from(bo(lru2.load_from_disk(g_none)), |()| "loaded".into()));
+            c.window(&m.api("LruManager::run_cycle"), || O::from(bo(lru2.run_cycle(400, 100)), |s| format!("loaded={} evicted={} stale_removed={}", s.loaded_entries, s.entries_evicted, s.stale_files_removed)));
+            c.window(&m.api("LruManager::scan_directory"), || O::Ok(lru2.scan_directory().to_string()));
+        }
+        for r in 0..rounds {
+            let iroot = c.root(&format!("cs_indexm_{r}"));
+            for d in &decoys {
+                let _ = std::fs::write(iroot.join(d), b"decoy");
+            }
+            let mut im = IndexManager::new(&iroot);
+            let entries = 1 + rng.usize_below(60);
+            let mut m = Meta::new("IndexManager::add_entry", "binary-keys+decoy-files", &iroot, &format!("entries={entries}"));
+            m.class = "binary-keys".into();
+            for j in 0..entries {
+                let mut kb = rng.array::<16>();
+                if j % 5 == 0 {
+                    kb[..9].copy_from_slice(b"../../../");
+                }
+                let ek = EncodingKey::from_bytes(kb);
+                // (add_entry may flush a full update section to disk on its own)
+                c.window(&m, || O::from(im.add_entry(&ek, (j % 3) as u16, (j * 64) as u32, 64), |()| "added".into()));
+            }
+            c.window(&m.api("IndexManager::save_all"), || O::from(im.save_all(), |()| "saved".into()));
+            let b = (r % 16) as u8;
+            c.window(&m.api("IndexManager::flush_updates_for_bucket"), || O::from(im.flush_updates_for_bucket(b), |()| "flushed".into()));
+            c.window(&m.api("IndexManager::flush_all_updates"), || O::from(im.flush_all_updates(), |()| "flushed".into()));
+            c.window(&m.api("IndexManager::save_all"), || O::from(im.save_all(), |()| "saved".into()));
+            // a second manager loads whatever index files the directory holds (and must ignore the decoys)
+            let mut im2 = IndexManager::new(&iroot);
+            c.window(&m.api("IndexManager::load_all"), || O::from(bo(im2.load_all()), |()| "loaded".to_string()));
+            c.window(&m.api("IndexManager::save_all"), || O::from(im2.save_all(), |()| "saved".into()));
         }
     }
 
@@ -890,9 +1278,28 @@ mod child {
 
     // ---- injectivity: well-formed keys that differ in a field must not share a file ----------
 
-    fn inj<K: CacheKey + 'static>(c: &mut Child, tname: &str, keys: Vec<(K, String)>) {
+    fn inj<K: CacheKey + std::fmt::Display + 'static>(c: &mut Child, tname: &str, keys: Vec<(K, String)>) {
         let mut seen = BTreeSet::new();
         let keys: Vec<(K, String)> = keys.into_iter().filter(|(_, kid)| seen.insert(kid.clone())).collect();
+        // display form and lookup hashes of every kind of typed key (binary and numeric fields included)
+        {
+            let root = c.parent.join("cwd");
+            let mut m = Meta::new("TypedKey::Display+fast_hash", tname, &root, tname);
+            m.class = "well-formed".into();
+            m.wf = true;
+            m.strings = vec![format!("{tname} x {}", keys.len())];
+            c.window(&m, || {
+                let mut total = 0usize;
+                let mut self_eq = true;
+                for (k, _) in &keys {
+                    total += k.to_string().len();
+                    let fh = CacheKey::fast_hash(k);
+                    self_eq &= fh.fast_eq(&cascette_cache::key::FastHash::from_string(k.as_cache_key())) || fh.fast_eq(&fh);
+                    let _ = k.hash_key();
+                }
+                O::Ok(format!("keys={} display_bytes={total} fast_eq_self={self_eq}", keys.len()))
+            });
+        }
         for (vname, sub) in [("flat", false), ("subdirs", true)] {
             let root = c.root(&format!("inj_{tname}_{vname}"));
             let cache: DiskCache<K> = disk_cache(&root, sub);
@@ -1543,7 +1950,7 @@ mod parent {
 
     pub fn main() {
         let ctx = Ctx::init("C20", "exploration");
-        ctx.set_rule("one case = one public API call with one input string (cache key / typed-key field / endpoint / CDN path, host, content key, archive key, range / installation name), executed under strace between marker syscalls; non-trivial = the string contains a separator or a dot segment or is absolute (or, for CDN keys/ranges, key shorter than 2 bytes / length 0 / offset+length overflow); distinct by hash of (API, variant, strings)");
+        ctx.set_rule("one case = one public API call with one input string (cache key / typed-key field / endpoint / CDN path, host, content key, archive key, range / installation name), executed under strace between marker syscalls (coverage-driven extension: also the maintenance calls — size/stats/clear/len/cleanup, directory compaction and cleaning, LRU run_cycle/shutdown/scan, index load/flush — over directories that hold every accepted odd name plus decoy files, typed-key construction/Display/hash windows, cdns-row endpoints, hard-link container calls with binary keys); non-trivial = the string contains a separator or a dot segment or is absolute (or, for CDN keys/ranges, key shorter than 2 bytes / length 0 / offset+length overflow); distinct by hash of (API, variant, strings)");
         ctx.assume("strace -f reports every file-related syscall of the workload process in causal order; marker syscalls delimit each call (the calls are synchronous; helper threads of the library finish before the call returns)");
         ctx.assume("syscalls on paths of the fixed runtime allow-list (/proc, /sys, /dev, loader and libc files, resolver and TLS configuration, the harness binary, the Rust sysroot) are the language runtime's, not the library's path construction");
         ctx.assume("the loopback HTTP mock (inside the workload process) answers every request with 200 and a valid BPSV document, so that cache writes actually happen");
@@ -1764,6 +2171,7 @@ mod parent {
             created: BTreeSet<Vec<u8>>,
             renames: Vec<(Vec<u8>, Vec<u8>)>,
             inside_create_ok: bool,
+            inside_deletes_ok: u64,
             syscalls: u64,
         }
         let mut pending: HashMap<String, String> = HashMap::new();
@@ -1820,7 +2228,7 @@ mod parent {
                                 if cur.is_some() {
                                     marker_errors += 1;
                                 }
-                                cur = Some(Win { n, worst: None, lines: Vec::new(), paths: BTreeSet::new(), created: BTreeSet::new(), renames: Vec::new(), inside_create_ok: false, syscalls: 0 });
+                                cur = Some(Win { n, worst: None, lines: Vec::new(), paths: BTreeSet::new(), created: BTreeSet::new(), renames: Vec::new(), inside_create_ok: false, inside_deletes_ok: 0, syscalls: 0 });
                             }
                             Some("e") => {
                                 let Some(w) = cur.take() else {
@@ -1837,6 +2245,9 @@ mod parent {
                                     continue;
                                 };
                                 ctx.obs("strace.syscalls_in_windows", w.syscalls);
+                                if w.inside_deletes_ok > 0 {
+                                    ctx.obs(&format!("monitor.successful_deletes_inside_root.{}", rec.api), w.inside_deletes_ok);
+                                }
                                 if let Some(sc) = w.worst {
                                     ctx.violation(
                                         &format!("C20|{}|escapes-root|{}|{}", rec.api, rec.class, sc.name()),
@@ -1906,7 +2317,7 @@ mod parent {
                 let lex = lex_norm(base, &u.path);
                 ctx.obs("strace.paths_checked", 1);
                 // glibc's NSS layer stats "/" when a host name is resolved (hostile `host` strings only)
-                let resolver_root_probe = lex == b"/" && u.class == Sc::Stat && rec.variant.ends_with("endpoint.host");
+                let resolver_root_probe = lex == b"/" && u.class == Sc::Stat && (rec.variant.ends_with("endpoint.host") || rec.variant.ends_with("cdns-row.Hosts"));
                 if resolver_root_probe || system_allowed(&lex, &extra_allowed) {
                     ctx.obs("strace.paths_runtime_allowlist", 1);
                     continue;
@@ -1918,6 +2329,9 @@ mod parent {
                     ctx.obs("strace.paths_inside_root", 1);
                     if u.class == Sc::Create && call.ok {
                         w.inside_create_ok = true;
+                    }
+                    if u.class == Sc::Delete && call.ok {
+                        w.inside_deletes_ok += 1;
                     }
                 } else {
                     ctx.obs("strace.paths_outside_root", 1);
@@ -2050,8 +2464,9 @@ mod parent {
             ctx.obs(&format!("calls.{api}"), 1);
             let lex = lex_norm(&cwd, &path);
             if !inside(&lex, &root) || lex == root {
+                let class = if api.starts_with("Storage::") { "layout-accessor" } else { "binary-key" };
                 ctx.violation(
-                    &format!("C20|{api}|escapes-root|binary-key|path-result"),
+                    &format!("C20|{api}|escapes-root|{class}|path-result"),
                     "path builder returned a path outside (or equal to) its base directory",
                     json!({"api":api,"input":p.get("input"),"path":String::from_utf8_lossy(&path),"root":String::from_utf8_lossy(&root)}),
                 );
@@ -2109,7 +2524,25 @@ mod parent {
         if ctx.get_obs("strace.paths_inside_root") < 100 {
             ctx.inconclusive("fewer than 100 path arguments inside configured roots were observed");
         }
-        for api in ["DiskCache::put", "DiskCache::get", "DiskCache::remove", "ProtocolCache::store_bytes", "RibbitTactClient::query", "CdnClient::download", "CdnClient::download_range", "CdnClient::download_archive_index", "Storage::open_installation", "IndexManager::save_all", "LruManager::checkpoint_to_disk", "format_content_key_path", "lru_file_path"] {
+        // the maintenance calls are only worth something if they were seen deleting files of their directory
+        for api in [
+            "DiskCache::clear", "DiskCache::background_cleanup", "ProtocolCache::clear", "HardLinkContainer::remove", "HardLinkContainer::remove_file", "HardLinkContainer::delete_keys",
+            "HardLinkContainer::clean_directory", "HardLinkContainer::compact_directory", "LruManager::shutdown", "LruManager::run_cycle",
+        ] {
+            if ctx.get_obs(&format!("monitor.successful_deletes_inside_root.{api}")) == 0 {
+                ctx.inconclusive(&format!("{api} was never observed deleting a file inside its directory — the maintenance workload did not do its job"));
+            }
+        }
+        for api in ["DiskCache::put", "DiskCache::get", "DiskCache::remove", "ProtocolCache::store_bytes", "RibbitTactClient::query", "CdnClient::download", "CdnClient::download_range", "CdnClient::download_archive_index", "Storage::open_installation", "IndexManager::save_all", "LruManager::checkpoint_to_disk", "format_content_key_path", "lru_file_path",
+            // coverage-driven extension
+            "TypedKey::new+as_cache_key+Display+fast_hash", "TypedKey::Display+fast_hash", "DiskCache::size", "DiskCache::stats", "DiskCache::clear", "DiskCache::contains", "DiskCache::background_cleanup",
+            "ProtocolCache::stats", "ProtocolCache::len", "ProtocolCache::is_empty", "ProtocolCache::clear", "ProtocolCache::cleanup_expired", "ProtocolCache::hit_rate",
+            "CdnClient::download_with_progress", "CdnClient::endpoint_from_bpsv_row", "Storage::list_installations", "Storage::new", "Storage::data_path", "Storage::build_info_path",
+            "HardLinkContainer::initialize", "HardLinkContainer::test_support", "HardLinkContainer::create_link", "HardLinkContainer::query", "HardLinkContainer::remove",
+            "HardLinkContainer::remove_file", "HardLinkContainer::delete_keys", "HardLinkContainer::clean_directory", "HardLinkContainer::compact_directory",
+            "LruManager::shutdown", "LruManager::run_cycle", "LruManager::load_from_disk", "LruManager::scan_directory", "LruManager::find_latest_lru_file", "lru_file::filename_to_generation",
+            "IndexManager::add_entry", "IndexManager::load_all", "IndexManager::flush_all_updates", "IndexManager::flush_updates_for_bucket",
+        ] {
             if ctx.get_obs(&format!("calls.{api}")) == 0 {
                 ctx.inconclusive(&format!("API {api} was never exercised"));
             }
